@@ -7,3 +7,5 @@ func TestC01(t *testing.T) { RunProp(t, propC01) }
 func TestC10(t *testing.T) { RunProp(t, propC10) }
 func TestC05(t *testing.T) { RunProp(t, propC05) }
 func TestC19(t *testing.T) { RunProp(t, propC19) }
+func TestC02(t *testing.T) { RunProp(t, propC02) }
+func TestC16(t *testing.T) { RunProp(t, propC16) }
